@@ -602,46 +602,7 @@ func checkC10(c *core.Ctx, r *core.Report) {
 		}
 		r.Floor("ORDER", "call sites of initNewDpWal", n, 3)
 
-		// (6) the WAL of the next block carries the next block's number: recovery takes the block number from the file
-		// name and re-flushes that block, so a WAL created before the number advanced makes a restart overwrite the
-		// block that was just rotated.  In every function that changes the block number, each call that (transitively)
-		// creates a datapoint WAL file is dominated by the change.
-		reach := sm.staticMayReach(objs(initWal.Object()))
-		m := 0
-		for _, fn := range c.RepoFunctions() {
-			var stores []ssa.Instruction
-			for _, b := range fn.Blocks {
-				for _, in := range b.Instrs {
-					if st, ok := in.(*ssa.Store); ok {
-						if fa, ok := st.Addr.(*ssa.FieldAddr); ok && core.FieldOfAddr(fa) == blkF {
-							stores = append(stores, in)
-						}
-					}
-				}
-			}
-			if len(stores) == 0 {
-				continue
-			}
-			k := 0
-			for _, ci := range core.CallsIn(fn) {
-				callee := ci.Common().StaticCallee()
-				if callee == nil || !(callee == initWal || reach[callee]) {
-					continue
-				}
-				m++
-				k++
-				after := false
-				for _, st := range stores {
-					if core.InstrDominates(st, ci) {
-						after = true
-					}
-				}
-				r.Check(after, "ORDER", fmt.Sprintf("%s:wal-creation#%d-after-the-block-number-change", shortFn(fn), k), c.Pos(ci.Pos()),
-					"the block number is changed before the next block's WAL file is created",
-					"a datapoint WAL file is created before the block number of this function's block change is stored: the new block's WAL carries the number of the block that was just flushed, and after a crash recovery re-flushes that number from the new WAL, replacing the rotated block's files with the few datapoints logged since")
-			}
-		}
-		r.Floor("ORDER", "WAL creations in functions that change the block number", m, 1)
+		checkWalAfterBlockNumber(c, r, sm)
 	}
 
 	// ---------------------------------------------------------------- (7) the WAL files of a block are replayed in index order
@@ -1163,4 +1124,50 @@ func accumulatorFlag(ifi *ssa.If, loops []*core.Loop) (bool, string) {
 		}
 	}
 	return true, ""
+}
+
+// checkWalAfterBlockNumber (shared by C08 and C10): the WAL of the next block carries the next block's number.
+func checkWalAfterBlockNumber(c *core.Ctx, r *core.Report, sm *summaries) {
+	initWal := c.Fn(pkgMetrics, "MetricsBlock.initNewDpWal")
+	blkF := c.Field("pkg/segment/structs", "MBlockSummary.Blknum")
+	// (6) the WAL of the next block carries the next block's number: recovery takes the block number from the file
+	// name and re-flushes that block, so a WAL created before the number advanced makes a restart overwrite the
+	// block that was just rotated.  In every function that changes the block number, each call that (transitively)
+	// creates a datapoint WAL file is dominated by the change.
+	reach := sm.staticMayReach(objs(initWal.Object()))
+	m := 0
+	for _, fn := range c.RepoFunctions() {
+		var stores []ssa.Instruction
+		for _, b := range fn.Blocks {
+			for _, in := range b.Instrs {
+				if st, ok := in.(*ssa.Store); ok {
+					if fa, ok := st.Addr.(*ssa.FieldAddr); ok && core.FieldOfAddr(fa) == blkF {
+						stores = append(stores, in)
+					}
+				}
+			}
+		}
+		if len(stores) == 0 {
+			continue
+		}
+		k := 0
+		for _, ci := range core.CallsIn(fn) {
+			callee := ci.Common().StaticCallee()
+			if callee == nil || !(callee == initWal || reach[callee]) {
+				continue
+			}
+			m++
+			k++
+			after := false
+			for _, st := range stores {
+				if core.InstrDominates(st, ci) {
+					after = true
+				}
+			}
+			r.Check(after, "ORDER", fmt.Sprintf("%s:wal-creation#%d-after-the-block-number-change", shortFn(fn), k), c.Pos(ci.Pos()),
+				"the block number is changed before the next block's WAL file is created",
+				"a datapoint WAL file is created before the block number of this function's block change is stored: the new block's WAL carries the number of the block that was just flushed, and after a crash recovery re-flushes that number from the new WAL, replacing the rotated block's files with the few datapoints logged since")
+		}
+	}
+	r.Floor("ORDER", "WAL creations in functions that change the block number", m, 1)
 }
